@@ -81,6 +81,13 @@ def tasks(tier):
     ts.append(("AD wrapper algebra", "run_included", dict(modname="c03", fname="run_wrappers", kwargs={}, oid="C11.O2",
                                                       why="frame indifference of every AD model rests on the wrapper evaluating the energy at F^T F and pushing S, D forward with F")))
     ts.append(("lagrange def-use", "run_lagrange_defuse", {}))
+    # sibling cross-check of the Lagrange (stress-based) models: their stress contains opaque matrix functions (expm, eigh), so its symmetry
+    # cannot be decided entry-wise; the two backends' implementations of one model must at least denote the same function
+    from . import c12
+    for jm, tm, nm in c12._pairs(it):
+        if ".lagrange" in jm:
+            ts.append(("sibling %s" % nm, "run_included", dict(modname="c12", fname="run_pair", kwargs=dict(jmod=jm, tmod=tm, name=nm), oid="C11.O9", select_oid="C12.O1",
+                                                             why="a Lagrange model whose two backend implementations differ deviates, in at least one of them, from the model whose Kirchhoff stress is symmetric")))
     ts.append(("canary", "run_canary", {}))
     return ts
 
@@ -452,17 +459,21 @@ def run_lagrange_defuse(col):
                 if "F" not in params:
                     continue
                 n_fun += 1
-                label = "%s.%s" % (mn.split("models.")[1], node.name)
+                label = "%s:%s.%s" % (backend, mn.split("models.")[1], node.name)
                 fobj = it.get(mn + ":" + node.name)
 
-                def chk(node=node, fobj=fobj, mn=mn):
+                contract = []
+
+                def chk(node=node, fobj=fobj, mn=mn, contract=contract):
                     args = c12.build_args(node, "Fdiag", {})
                     c, s = sym("rc"), sym("rs")
                     bad = []
                     for case in ("first", "second"):
                         npmodel.MAX_CASE[0] = case
                         try:
+                            admodels.WORLD["contract_log"] = []
                             r0 = it.call(fobj, [], dict(args))
+                            contract.extend(admodels.WORLD["contract_log"])
                             P0 = r0[0] if isinstance(r0, tuple) else r0
                             ring.set_rewrite(s, 2, ONE - c * c)
                             try:
@@ -482,6 +493,13 @@ def run_lagrange_defuse(col):
                     return not bad, "%s:%d P(QF) != Q P(F) for %s" % (mn.replace("felupe.", ""), node.lineno, bad)
 
                 col.check("C11.O3", label, "objective use of F in a Lagrange-wrapped material: P(Q F) == Q P(F) for symbolic axis rotations (F in principal axes)", chk)
+                # tensor-valued routines that are specified for symmetric arguments only (tensortrax' eigh-based expm, eigh): with any other
+                # argument their result is not symmetric-consistent, the stress S loses its symmetry and with it P F^T
+                tens = sorted({r for r, _ in contract if r != "eigvalsh"})
+                col.add("C11.O8", label.replace(" ", "_") + ":symmetric-argument-routines",
+                        "the Kirchhoff stress of a Lagrange-wrapped model is symmetric only if the tensor-valued linear-algebra routines that assume a symmetric argument "
+                        "(tensortrax.math.linalg.expm, eigh) receive one for every state (old state tensors not coaxial with the current deformation included)",
+                        not tens, "%s:%d %s is called with an argument that is not symmetric for a stored state that is not coaxial with C" % (mn.replace("felupe.", ""), node.lineno, tens))
     col.info["lagrange_wrapped_functions"] = n_fun
     if n_fun < 4:
         col.undecided("C11.O3", "lagrange models", "floor", "only %d Lagrange model functions found (expected >= 4)" % n_fun)
@@ -505,7 +523,7 @@ def run_canary(col):
     col.add("canary", "fixtures/canary_models.py mixed_invariants", "the reference-state rule flags an energy mixing isochoric and full invariants", fired, nontrivial=False)
 
 
-def run_included(col, modname, fname, kwargs, oid, why):
+def run_included(col, modname, fname, kwargs, oid, why, select_oid=None):
     from ..common import include
 
-    include(col, modname, fname, kwargs, oid, why)
+    include(col, modname, fname, kwargs, oid, why, select_oid=select_oid)
